@@ -490,7 +490,7 @@ def cli_main(x, p):
     if exc is not None or rc != 0:
         return
     x.check('exactly the output cart is written',
-            fs.opened_for_write == [out_name])
+            clikit.only_changed(fs, out_name))
     if out_name not in fs.files:
         return
     got = clikit.lua_of(fs.files[out_name])
